@@ -241,3 +241,44 @@ def shrink(items, fails):
             except Exception:
                 continue
     return cur
+
+
+def run_subcheck(rep, module_name, sub_pid, tier, label):
+    """Run another driver (an extension module such as X12) as part of this property's check: its TLC runs and
+    evaluations are added to `rep`, its violations become violations of rep.pid (clause prefixed with `label`)."""
+    import contextlib
+    import importlib
+    import io
+    import json as _json
+
+    mod = importlib.import_module("harness." + module_name)
+    buf = io.StringIO()
+    with contextlib.redirect_stdout(buf):
+        rc = mod.run(tier, sub_pid)
+    out = buf.getvalue()
+    if rc not in (0, 1):
+        from .tlc import MachineryError
+
+        raise MachineryError("sub-check %s failed: %s" % (sub_pid, out[-1500:]))
+    lines = out.split("\n")
+    for i, ln in enumerate(lines):
+        if ln.startswith("VIOLATION property=%s " % sub_pid):
+            path = ln.split("replay=", 1)[1].strip()
+            clause, sig = "violation", path
+            if i + 1 < len(lines) and lines[i + 1].strip().startswith("clause="):
+                parts = lines[i + 1].strip().split(" signature=", 1)
+                clause = parts[0][len("clause="):]
+                sig = parts[1] if len(parts) > 1 else path
+            rep.violation("%s:%s" % (label, clause), "%s:%s" % (label, sig), {"sub_check": sub_pid, "replay": path})
+    try:
+        ev = _json.load(open(os.path.join(EVIDENCE, "%s.json" % sub_pid)))
+        cov = ev["coverage"]
+        rep.evaluations += cov.get("evaluations", 0)
+        rep.states += cov.get("states", 0)
+        rep.transitions += cov.get("transitions", 0)
+        rep.traces += cov.get("traces_validated_against_impl", 0)
+        rep.tlc_runs.append({"what": "sub-check %s (%s)" % (sub_pid, label), "distinct": cov.get("states", 0),
+                             "generated": cov.get("transitions", 0), "depth": 0, "wall_s": ev.get("wall_s", 0), "coverage": None})
+    except (OSError, ValueError, KeyError):
+        pass
+    return rc
